@@ -25,7 +25,7 @@ struct Sub {
 struct App {
     char pc; int pi; int pi_nb; int pi_neg; int pi_frac;
     float pf; float pf_log; float pf_nb; float pf_unit;
-    bool pt; int po; int po_b; Opt4 po_e; int po_gap; int po_ooo;
+    bool pt; int po; int po_b; Opt4 po_e; int po_gap; int po_ooo; int pi7;
     char ps[16]; char ps4[4];
     float af[4]; int ai[5]; bool at[3]; int ao[3];
     Sub sub; Sub subs[3]; Sub *psub;
@@ -60,6 +60,7 @@ inline const rtosc::Ports App::ports = {
     rOption(po_e, rOptions(alpha, beta, gamma, delta), rLinear(0, 3), "enum-typed option"),
     rOption(po_gap, rOpt(0, zero) rOpt(1, one) rOpt(4, four) rOpt(9, nine), rLinear(0, 9), "option with gaps in its numbering"),
     rOption(po_ooo, rOpt(2, two) rOpt(0, zero) rOpt(1, one), "option listed out of numeric order"),
+    rParamI(pi7, rLinear(0, 127), "int param with the MIDI range"),
     rString(ps, 16, "string"),
     rString(ps4, 4, "short string"),
     rArrayF(af, 4, rLinear(-1, 1), "float array"),
@@ -139,6 +140,7 @@ inline const std::vector<Leaf> &leaves() {
     // (appended last so that leaf indices in older replay files keep their meaning)
     { Leaf l{"/po_gap", K_OPTION, true, true, "0", "9", {"zero", "one", "four", "nine"}, 0, [](App &a) { return vi(a.po_gap); }}; l.optidx = {0, 1, 4, 9}; L.push_back(l); }
     { Leaf l{"/po_ooo", K_OPTION, false, false, "", "", {"two", "zero", "one"}, 0, [](App &a) { return vi(a.po_ooo); }}; l.optidx = {2, 0, 1}; L.push_back(l); }
+    L.push_back({"/pi7", K_PARAM_I, true, true, "0", "127", {}, 0, [](App &a) { return vi(a.pi7); }});
     return L;
 }
 
